@@ -2,6 +2,7 @@ import Indi.Properties.C02
 import Indi.Properties.Wire
 import Indi.Properties.Decisions
 import Indi.Properties.Spellings
+import Indi.Properties.C02b
 #print axioms Indi.Buf.C02_abstract
 #print axioms Indi.Buf.C02_fragmentation_independent
 #print axioms Indi.Buf.generated_tagsOk
@@ -19,3 +20,9 @@ import Indi.Properties.Spellings
 #print axioms Indi.Xml.parseDoc_spell_prefix
 #print axioms Indi.Xml.spellElem_ending
 #print axioms Indi.Xml.C02_spelled_stream
+#print axioms Indi.Conn.recv_fragmentation_independent_ops
+#print axioms Indi.Conn.recv_fragmentation_independent_router
+#print axioms Indi.Conn.recv_fragmentation_independent
+#print axioms Indi.Conn.recv_fragmentation_independent_wf
+#print axioms Indi.Conn.recv_fragmentation_independent_ne
+#print axioms Indi.Conn.recv_fragmentation_independent_state_counterexample
